@@ -41,6 +41,8 @@ class Gen:
         self.sigs = {}      # fname -> (nparams, nresults)
         self.features = set()
         self.extra_defer_kinds = ()
+        self.split_at = None      # index of the first function that lives in package lib (None: one package)
+        self.cur_fi = None
 
     # ---- names
     def var(self, hint="v"):
@@ -52,7 +54,15 @@ class Gen:
         return "L%s%d" % (self.pf, self.nl)
 
     def fname(self, i):
+        if self.split_at is not None and i >= self.split_at:
+            return "L%sf%d" % (self.pf, i)          # exported: lives in package lib
         return "%sf%d" % (self.pf, i)
+
+    def in_lib(self, fi):
+        return self.split_at is not None and fi is not None and fi >= self.split_at
+
+    def helper_name(self, base, fi):
+        return ("L" if self.in_lib(fi) else "") + self.pf + base
 
     # ---- expressions
     def int_expr(self, sc, depth=2, allow_fault=False):
@@ -139,6 +149,8 @@ class Gen:
                          "closure": 1, "switch": 0.5, "rangearr": 0.5, "struct": 0.5, "method": 0.5, "iface": 0.3})
         if self.profile == "faults":
             base.update({"fault": 6, "recoverblock": 5, "defer": 3, "panic": 1, "ptr": 3})
+        if self.in_lib(self.cur_fi):
+            base.update({"struct": 0, "method": 0, "iface": 0})
         return base
 
     def stmt(self, sc, fi, depth, ctx):
@@ -360,7 +372,7 @@ class Gen:
         kind = r.choice(["print", "print", "closure-result", "recover", "panic", "repanic", "closure-capture"] + list(self.extra_defer_kinds))
         f = ctx.get("fn")
         if kind == "print":
-            return [("defer", ("call", ("fn", self.pf + "dp"), [I(r.randint(1, 9)), self.int_expr(sc, 1)]))]
+            return [("defer", ("call", ("fn", self.helper_name("dp", self.cur_fi)), [I(r.randint(1, 9)), self.int_expr(sc, 1)]))]
         if kind == "closure-capture" and ints:
             x = r.choice(ints)
             lit = {"name": "", "params": [], "results": [], "body": [("print", [("str", "dc"), V(x)])]}
@@ -381,7 +393,7 @@ class Gen:
             return [("defer", ("call", ("clo", ("funclit", lit)), []))]
         if kind == "recover-helper":
             # recover called by a helper of the deferred function: must NOT stop the panic
-            lit = {"name": "", "params": [], "results": [], "body": [("expr", ("call", ("fn", self.pf + "helper"), [])), ("print", [("str", "dh")])]}
+            lit = {"name": "", "params": [], "results": [], "body": [("expr", ("call", ("fn", self.helper_name("helper", self.cur_fi)), [])), ("print", [("str", "dh")])]}
             self.features.add("recover-via-helper")
             return [("defer", ("call", ("clo", ("funclit", lit)), []))]
         if kind == "inner-recovered-panic":
@@ -403,7 +415,7 @@ class Gen:
                 ("if", ("bin", "!=", V(rv), I(0)), [("panic", ("bin", "+", ("bin", "%", V(rv), I(50)), I(200)))], [])]}
             self.features.add("repanic")
             return [("defer", ("call", ("clo", ("funclit", lit)), []))]
-        return [("defer", ("call", ("fn", self.pf + "dp"), [I(0), I(0)]))]
+        return [("defer", ("call", ("fn", self.helper_name("dp", self.cur_fi)), [I(0), I(0)]))]
 
     # ---- structs, methods, interfaces (a fixed small family per case)
     def ensure_types(self):
@@ -542,18 +554,21 @@ class Gen:
         r = self.r
         for j in range(self.nfuncs):
             self.sigs[j] = (r.randint(0, 2), r.choice([0, 1, 1, 2])) if j > 0 else (0, 0)
-        # helpers used by defer forms
-        self.funcs.append({"name": self.pf + "dp", "params": [("k", "int"), ("v", "int")], "results": [],
-                           "body": [("print", [("str", "d"), V("k"), V("v")])]})
+        # helpers used by defer forms (one copy per package that has functions of this case)
         hv = "hr"
-        self.funcs.append({"name": self.pf + "helper", "params": [], "results": [],
-                           "body": [("decl", hv, "int", I(0)), ("recover", hv), ("print", [("str", "h"), V(hv)])]})
+        for lib in ([False, True] if self.split_at is not None else [False]):
+            pre = ("L" if lib else "") + self.pf
+            self.funcs.append({"name": pre + "dp", "params": [("k", "int"), ("v", "int")], "results": [], "lib": lib,
+                               "body": [("print", [("str", "d"), V("k"), V("v")])]})
+            self.funcs.append({"name": pre + "helper", "params": [], "results": [], "lib": lib,
+                               "body": [("decl", hv, "int", I(0)), ("recover", hv), ("print", [("str", "h"), V(hv)])]})
         for j in reversed(range(self.nfuncs)):
             np_, nr = self.sigs[j]
             params = [(self.var("a"), "int") for _ in range(np_)]
             results = [(self.var("r"), "int") for _ in range(nr)]
-            f = {"name": self.fname(j), "params": params, "results": results, "body": []}
+            f = {"name": self.fname(j), "params": params, "results": results, "body": [], "lib": self.in_lib(j)}
             sc = {x: t for x, t in params + results}
+            self.cur_fi = j
             body = self.stmts(sc, j, 2 if j > 0 else 3, 5 if j == 0 else 4, {"fn": f})
             if results:
                 body.append(("assign", [V(x) for x, _ in results], [self.int_expr(sc, 1) for _ in results]))
@@ -563,10 +578,12 @@ class Gen:
                 "methods": self.methods, "entry": self.fname(0), "features": sorted(self.features)}
 
 
-def gen_case(seed, idx, profile, extra_defer_kinds=()):
+def gen_case(seed, idx, profile, extra_defer_kinds=(), split=False):
     rng = random.Random(seed * 1000003 + idx)
     g = Gen(rng, "c%d_" % idx, profile)
     g.extra_defer_kinds = tuple(extra_defer_kinds)
+    if split and g.nfuncs >= 2:
+        g.split_at = rng.randint(1, g.nfuncs - 1)
     return g.make()
 
 
